@@ -40,6 +40,22 @@ pub struct Case {
     /// family B (many concurrent clients on one writer thread); `steps` is empty then
     #[serde(default)]
     pub burst: Option<Burst>,
+    /// family C: per step, 0 = the valid append of `steps`, 1 = rejected by the writer for its expected partition
+    /// sequence, 2 = a two-event transaction whose second event cannot be encoded (fails after its first event was
+    /// written and is cut back), 3 = rejected for its expected stream version; empty = all valid
+    #[serde(default)]
+    pub rejects: Vec<u8>,
+}
+
+fn step_tx(size: Size, reject: u8) -> TxS {
+    let mut t = TxS::single(0, 0, size);
+    match reject {
+        1 => t.exp_seq = ExpS::Cur(9),
+        2 => t.events.push(EvS { stream: 0, exp: ExpS::Any, size: Size::Tiny, bad: Bad::Timestamp }),
+        3 => t.events[0].exp = ExpS::Cur(9),
+        _ => {}
+    }
+    t
 }
 
 /// Family B: 64 buckets on 64 writer threads, so that a writer's request channel holds 16 requests.  The writer
@@ -105,18 +121,46 @@ pub fn cases(tier: Tier) -> Vec<Case> {
             }
             for sched in schedules(len) {
                 for &sync in &syncs {
-                    v.push(Case { sync, steps: h.iter().copied().zip(sched.iter().copied()).collect(), burst: None });
+                    v.push(Case { sync, steps: h.iter().copied().zip(sched.iter().copied()).collect(), burst: None, rejects: vec![] });
                 }
             }
         }
         hists = next;
+    }
+    // family C: rejected appends between appends that are still waiting for their sync
+    {
+        // (size, reject kind)
+        let alpha: Vec<(Size, u8)> = if tier.is_thorough() { vec![(Size::Tiny, 0), (Size::Kb5, 0), (Size::Tiny, 1), (Size::Tiny, 2), (Size::Tiny, 3), (Size::Kb5, 2)] } else { vec![(Size::Tiny, 0), (Size::Tiny, 1), (Size::Tiny, 2), (Size::Tiny, 3)] };
+        let mut hs: Vec<Vec<(Size, u8)>> = vec![vec![]];
+        for len in 1..=3usize {
+            let mut next = Vec::new();
+            for h in &hs {
+                for &a in &alpha {
+                    let mut n = h.clone();
+                    n.push(a);
+                    next.push(n);
+                }
+            }
+            for h in &next {
+                let rejected = h.iter().filter(|a| a.1 != 0).count();
+                if len < 2 || rejected == 0 || rejected == len {
+                    continue;
+                }
+                for sched in schedules(len) {
+                    for &sync in &syncs {
+                        v.push(Case { sync, steps: h.iter().map(|a| a.0).zip(sched.iter().copied()).collect(), burst: None, rejects: h.iter().map(|a| a.1).collect() });
+                    }
+                }
+            }
+            hs = next;
+        }
     }
     // family B
     let bursts: Vec<usize> = if tier.is_thorough() { vec![1, 8, 15, 16, 17, 18, 24, 40] } else { vec![8, 16, 17, 24] };
     for &sync in &[SyncMode::Custom(5, 10, usize::MAX, usize::MAX), SyncMode::Defaults, SyncMode::Custom(5, 10, 2, usize::MAX)] {
         for &clients in &bursts {
             for stall_ms in [0u64, 40] {
-                v.push(Case { sync, steps: vec![], burst: Some(Burst { clients, stall_ms }) });
+                v.push(Case { sync, steps: vec![], burst: Some(Burst { clients, stall_ms }), rejects: vec![] });
             }
         }
     }
@@ -221,11 +265,12 @@ pub fn run_case(case: &Case, out: &mut WorkerOut) {
     let mut slow = 0u64;
     let mut report = |out: &mut WorkerOut, kind: &str, detail: String| {
         let rolled = case.steps.iter().filter(|(s, _)| *s == Size::Block).count() >= 3;
-        out.violation(&format!("C20/{kind}/{}", if rolled { "with-rollover" } else { "no-rollover" }), &format!("{detail} [sync {:?} steps {:?}]", case.sync, case.steps), case_json.clone());
+        let fam = if case.rejects.iter().any(|r| *r != 0) { "/with-rejected-appends" } else { "" };
+        out.violation(&format!("C20/{kind}/{}{fam}", if rolled { "with-rollover" } else { "no-rollover" }), &format!("{detail} [sync {:?} steps {:?} rejects {:?}]", case.sync, case.steps, case.rejects), case_json.clone());
     };
     for (i, (size, mode)) in case.steps.iter().enumerate() {
         out.transitions += 1;
-        let (_m, rtx) = h.build(&TxS::single(0, 0, *size));
+        let (_m, rtx) = h.build(&step_tx(*size, case.rejects.get(i).copied().unwrap_or(0)));
         let db = h.db().clone();
         let rtx = rtx.unwrap();
         let mut fut: Fut = Box::pin(async move { db.append_events(rtx).await });
@@ -275,7 +320,7 @@ pub fn run_case(case: &Case, out: &mut WorkerOut) {
         }
     }
     out.count("appends_that_needed_the_grace_period", slow);
-    out.state(vcommon::fnv(format!("{:?}", case.steps).as_bytes()));
+    out.state(vcommon::fnv(format!("{:?}{:?}", case.steps, case.rejects).as_bytes()));
     out.outcome(format!("ok/worst<{}ms", (worst.as_millis() / 25 + 1) * 25));
     if out.cases_done % 120 == 0 {
         out.sample(case_json);
@@ -298,6 +343,7 @@ pub fn run(args: Args) {
                 "distinct_observed_outcomes": m.outcomes.len(),
                 "outcomes": m.outcomes,
                 "deadline_s": DEADLINE.as_secs(),
+                "family_c": "histories of 2..3 steps that mix valid appends with appends the writer rejects (wrong expected partition sequence, wrong expected stream version, a two-event transaction that fails after its first event was written) x every polling schedule: a rejected append between appends that still wait for their sync must not leave them waiting",
                 "family_b": "64 buckets on 64 writer threads (request channel of 16 per thread); one writer is stopped before its first write while 1..40 further appends for its bucket are issued, with and without a 40 ms stall during which the syncer thread polls; every append, and one issued afterwards, must complete",
                 "rule": "schedule = (sync configuration, history of appends, per append: awaited at once | polled once and resumed after step j or at the end, at most 3 parked); all of them up to the stated history length; states = distinct (history, polling schedule)",
             }),
